@@ -48,17 +48,32 @@ ForwardOnce ==
 
 (* the children's answers as the node last read them *)
 LastAns(id) == LET l == Ls(id) IN IF l = <<>> THEN "?" ELSE l[Len(l)][3][1]
-BothReady == \/ ~Binary \/ Dead \/ LastAns(1) = "?" \/ LastAns(3) = "?"
-             \/ (Tally("both-ready") /\ (OIsValue(ObsNow) <=> (LastAns(1) = "s" /\ LastAns(3) = "s")))
+(* ... or, if the node did not even ask this child, what the child's definition says about its readiness *)
+ChildAns(i, id) ==
+    IF LastAns(id) # "?" THEN LastAns(id)
+    ELSE LET r == TreeVal(ChildOf(ChildOf(Cfg, i), 1), Raw) IN      \* the child view under its observation point
+         IF r[1] = "n" THEN "n" ELSE IF r[1] \in {"q", "f"} THEN "s" ELSE "?"
+BothReady == \/ ~Binary \/ Dead
+             \/ LET a == ChildAns(1, 1) b == ChildAns(2, 3) IN
+                \/ a = "?" \/ b = "?"
+                \/ (Tally("both-ready") /\ (OIsValue(ObsNow) <=> (a = "s" /\ b = "s")))
 
-(* number of derived values the node owes its moving average in this step, from the definition *)
+(* number of derived values the node owes its moving average in this step (-1: not determined), from the definition:
+   PFE derives one value per delivered value once N have been delivered; EFT one per delivered value unless its window is flat *)
+InnerOf == ChildOf(ChildOf(Cfg, 1), 1)
 Derived ==
-    IF Cfg.k = "PolarizedFractalEfficiency" THEN (IF Len(hist) >= Cfg.n THEN 1 ELSE 0)
-    ELSE LET w == LastK(Raw, Cfg.n) IN IF AllEqual(w) THEN 0 ELSE 1
-MaSlot == \/ ~HasMA \/ Len(hist) = 0 \/ Dead \/ ChildOf(Cfg, 1).k # "Tap" \/ ChildOf(ChildOf(Cfg, 1), 1).k # "Probe"
-          \/ /\ Tally("ma-slot")
-             /\ Len(Us(5)) = Derived /\ Len(Us(4)) = Derived
-             /\ (Derived = 0 \/ OSame(Us(5)[1][3], Us(4)[1][3]))
+    LET now == Delivered(InnerOf, Raw)
+        bef == Delivered(InnerOf, Front(Raw))
+    IN  IF ~now[1] \/ ~bef[1] THEN -1
+        ELSE IF Len(now[2]) = Len(bef[2]) THEN 0
+        ELSE IF Cfg.k = "PolarizedFractalEfficiency" THEN (IF Len(now[2]) >= Cfg.n THEN 1 ELSE 0)
+        ELSE IF AllEqual(LastK(now[2], Cfg.n)) THEN 0 ELSE 1
+MaSlot == \/ ~HasMA \/ Len(hist) = 0 \/ Dead
+          \/ LET d == Derived IN
+             \/ d < 0
+             \/ /\ Tally("ma-slot")
+                /\ Len(Us(5)) = d /\ Len(Us(4)) = d
+                /\ (d = 0 \/ OSame(Us(5)[1][3], Us(4)[1][3]))
 
 Live == /\ (SameAnswer \/ Report("C01", "same-answer"))
         /\ (ForwardOnce \/ Report("C01", "forward-once"))
